@@ -28,7 +28,7 @@ from vt.report import Report
 
 
 def purity_lemma(rep):
-    an = frame.Analyzer("/repo/src/_gettsim")
+    an = frame.Analyzer(str(venv.SRC))
     pref = ("_gettsim.taxes", "_gettsim.transfers", "_gettsim.social_insurance_contributions", "_gettsim.demographic_vars", "_gettsim.groupings", "_gettsim.aggregation_numpy", "_gettsim.time_conversion")
     n, bad = 0, []
     for (m, q), eff in an.effects.items():
